@@ -18,7 +18,7 @@ RULE = (
     "ensurelink in {True, False} x 40 (quick) / 400 (thorough) seeds of the random module; plus a grid of larger counts (63-300, around multiples of 64 and 128); plus Hypothesis: count "
     "<= 80, 9 link classes (also one with renamed end parameters, one whose constructor takes the two ends only, one derived from both edge classes), connectivity any float in [0, 1], arbitrary int seed.  Oracle: the call returns (no exception); "
     "len(uni.vertices) == count; sorted(v.i) == range(count); every link of every member has exactly the requested "
-    "type and both ends inside the universe; with ensurelink every member is v1 of >= 1 link; re-seeding the random "
+    "type and both ends inside the universe; with ensurelink every member is v1 of >= 1 link; a second call with the same seed - made after the caller removed a member from the first result - returns a NEW graph (no object shared with the first) of the same shape; re-seeding the random "
     "module with the same value gives the same graph - in this process, and as the very first call of two separate fresh interpreters - (same (v1.i, v2.i) list per vertex in the same order).  "
     "Non-trivial = count >= 2 and >= 1 link; counts 1..5 with the default connectivity (where 5/count > 1) are "
     "always part of the grid and tallied; distinct = distinct case value."
